@@ -67,6 +67,14 @@ def src_limits():
         out.append((f"lookahead:examples:{n}", "Feature: f\n  Scenario Outline: s\n    Given <h>\n  @a\n" + skip + "    Examples:\n      | h |\n      | 1 |\n", "en"))
         out.append((f"lookahead:rule:{n}", "Feature: f\n  Scenario: s\n    Given x\n  @a\n" + skip + "  Rule: r\n", "en"))
         out.append((f"lookahead:eof:{n}", "Feature: f\n  Scenario: s\n    Given x\n  @a\n" + skip, "en"))
+    # spellings of dialect names that are NOT in the table (only the exact name selects a dialect)
+    for k, nm in enumerate(["en_au", "zh_CN", "sr_Latn", "EN", "en-AU", "en_", "fr-", "en-lol ", "e n"]):
+        out.append((f"unknown-dialect:{k}", f"# language: {nm}\nFeature: f\n  Scenario: s\n    Given x\n", "en"))
+    # documents that leave a matcher in every non-initial state, each followed by ordinary ones (for re-use passes)
+    for k, s in enumerate(["Feature: q\n  Scenario: s\n    Given x\n      \"\"\"\n      open\n", "Feature: ok\n  Scenario: s\n    Given x\n      ```\n      c\n      ```\n    And y\n      \"\"\"\n      d\n      \"\"\"\n",
+                           "Feature: b\n  Scenario: s\n    Given x\n        ```\n     open\n", "Feature: i\n    indented description\n  Scenario: s\n    Given x\n      \"\"\"\n      d\n      \"\"\"\n",
+                           "# language: fr\nFonctionnalité: f\n  Scénario: s\n    Soit x\n", "Feature: a\n  Scenario: s\n    Given x\n    * y\n"]):
+        out.append((f"state-leaving:{k}", s, "en"))
     return out
 
 
@@ -181,3 +189,27 @@ def layering(rep: Reporter, menu_lines: list[str], n: int, label: str = "layerin
     for inv in sorted(set(res.invariant_violations)):
         rep.violation({"kind": "spec-invariant", "invariant": inv}, {"engine": "MC_Layering", "what": f"{inv} violated: the two grains of the parser specification disagree",
                                                                      "tlc_tail": res.out[-3000:]})
+
+
+def reuse_pass(rep: Reporter, sources, label: str = "reuse", default: str = "en") -> None:
+    """The documents, in order, through ONE Parser and ONE TokenMatcher: every outcome must equal the outcome from fresh objects."""
+    import sessions as S
+    from gherkin.parser import Parser
+    from gherkin.ast_builder import AstBuilder
+    from gherkin.token_matcher import TokenMatcher
+    from gherkin.stream.id_generator import IdGenerator
+    idg = IdGenerator()
+    parser, matcher = Parser(AstBuilder(idg)), TokenMatcher(default)
+    n = 0
+    for name, s, d in sources:
+        if d != default or known_finding_input(s):
+            continue
+        n += 1
+        idg._id_counter = 0
+        reused, _ = S.outcome(lambda: parser.parse(s, matcher))
+        fresh, _ = S.outcome(lambda: Parser(AstBuilder(IdGenerator())).parse(s, TokenMatcher(default)))
+        rep.case((label, name))
+        if reused != fresh:
+            rep.violation({"kind": "reused-objects"}, {"engine": "reuse", "what": "a parser / matcher used before gives a different result than fresh ones", "source": s,
+                                                      "after": name, "fresh": fresh, "reused": reused})
+    rep.traces += n
